@@ -15,7 +15,7 @@ build(){ ( cd "$WT" && cmake -G Ninja -B _build -DCMAKE_BUILD_TYPE=RelWithDebInf
 rundemo(){ # prints exit code
   if [ -f "$SRC/demo.cpp" ]; then
     g++ -std=c++11 -O1 -g -fno-access-control -I"$WT" -I"$WT/private" -I"$WT/tests" -I"$WT/booster" -I"$WT/_build" -I"$WT/_build/booster" \
-        "$SRC/demo.cpp" -o "$WT/demo.bin" -L"$WT/_build" -lcppcms -L"$WT/_build/booster" -lbooster -lpthread -ldl >"$WT/demo.build.log" 2>&1 || { echo "build-failed"; return; }
+        "$SRC/demo.cpp" -o "$WT/demo.bin" -L"$WT/_build" -lcppcms -L"$WT/_build/booster" -lbooster -lpthread -ldl -lz -lcrypto >"$WT/demo.build.log" 2>&1 || { echo "build-failed"; return; }
     ( cd "$WT" && LD_LIBRARY_PATH="$WT/_build:$WT/_build/booster" timeout 900 ./demo.bin >"$WT/demo.out" 2>&1; echo $? )
   elif [ -f "$SRC/demo.py" ]; then ( cd "$WT" && ninja -C _build >/dev/null 2>&1; LD_LIBRARY_PATH="$WT/_build:$WT/_build/booster" timeout 900 python3 "$SRC/demo.py" "$WT" >"$WT/demo.out" 2>&1; echo $? )
   elif [ -f "$SRC/demo.sh" ]; then ( cd "$WT" && ninja -C _build >/dev/null 2>&1; LD_LIBRARY_PATH="$WT/_build:$WT/_build/booster" timeout 900 bash "$SRC/demo.sh" "$WT" >"$WT/demo.out" 2>&1; echo $? )
